@@ -181,6 +181,38 @@ func dischargeAll(e *Engine, units []*Unit, o runOpts, pool *SolverPool) []*Obli
 			defer wg.Done()
 			sem <- struct{}{}
 			defer func() { <-sem }()
+			// first attempt: quantifier-free unit context (sound: fewer assumptions), z3 5.1 only, short timeout
+			if !ob.Vacuity {
+				ql := e.QueryLite(ob, prelude)
+				r0 := pool.SolveOne(ql, 2*time.Second)
+				if r0.Status == "unsat" {
+					ob.Status = "unsat"
+					ob.Solver = r0.Solver + "/lite"
+					ob.Time = r0.Time
+					return
+				}
+			}
+			// second attempt for obligations at a join of a few paths: one query per incoming path
+			if !ob.Vacuity && len(ob.Parts) > 1 && o.tier != "thorough" {
+				all := true
+				tt := 0.0
+				for _, pc := range ob.Parts {
+					ob2 := *ob
+					ob2.PC = And(ob.PC, pc)
+					r1 := pool.SolveOne(e.Query(&ob2, prelude), 6*time.Second)
+					tt += r1.Time
+					if r1.Status != "unsat" {
+						all = false
+						break
+					}
+				}
+				if all {
+					ob.Status = "unsat"
+					ob.Solver = "z3-new/split"
+					ob.Time = tt
+					return
+				}
+			}
 			q := e.Query(ob, prelude)
 			to := o.timeout
 			if ob.Vacuity {
